@@ -425,10 +425,13 @@ class Ctx:
                               name=s["name"]))
             idx.append(i)
         runs = self.run_many(items)
+        # a watchdog firing is inconclusive: the shards concerned are run once more (together, the machine is now idle)
+        again = [k for k, r in enumerate(runs) if r.timed_out]
+        if again:
+            for k, r2 in zip(again, self.run_many([items[k] for k in again])):
+                runs[k] = r2
         out = [None] * len(shards)
         for i, it, r in zip(idx, items, runs):
-            if r.timed_out:
-                r = self.run(**it)   # once more, alone
             self.absorb(r, shard=shards[i]["name"], count_nt=shards[i].get("primary", True))
             out[i] = r
         self.compile_secs = round(sum(b.secs for b in builds), 1) + getattr(self, "compile_secs", 0)
